@@ -90,6 +90,9 @@ struct CancelTwin {
     reconnect_after: bool,
     /// (with `reconnect_after`) the application never calls the request at all
     skip_request: bool,
+    /// (with `reconnect_after`) another request issued on the same handle before it is dropped
+    other_op: Option<Step>,
+    pub other_op_at: Option<usize>,
     tail: VecDeque<Step>,
     /// the operation that follows the request is a QoS 0 publish (written straight from scratch
     /// space, not through the outbound queue)
@@ -119,7 +122,7 @@ impl Driver for CancelTwin {
             match self.stage {
                 0 => {
                     if self.skip_request {
-                        self.stage = 5;
+                        self.stage = 7;
                         continue;
                     }
                     // issue the request: cancelled attempts first
@@ -129,9 +132,18 @@ impl Driver for CancelTwin {
                         self.poll_before_reissue = matches!(self.request, Step::Disconnect(_)) && at % 2 == 1;
                         return Some(with_cancel(&self.request, Some(at)));
                     }
-                    self.stage = if self.reconnect_after { 5 } else { 3 };
+                    self.stage = if self.reconnect_after { 7 } else { 3 };
                     self.drain_left = 60;
                     return Some(with_cancel(&self.request, None));
+                }
+                7 => {
+                    self.stage = 5;
+                    if let Some(s) = self.other_op.take() {
+                        if v.has_handle {
+                            self.other_op_at = Some(v.log.ops.len());
+                            return Some(s);
+                        }
+                    }
                 }
                 5 => {
                     // the application lets go of the handle and connects again
@@ -152,7 +164,7 @@ impl Driver for CancelTwin {
                     let enq = !last.new_retained.is_empty();
                     let is_req = matches!(self.request, Step::Publish(_) | Step::Subscribe(_) | Step::Unsubscribe(_));
                     if self.reconnect_after {
-                        self.stage = 5;
+                        self.stage = 7;
                         continue;
                     }
                     if !cancelled {
@@ -369,11 +381,25 @@ impl Check for C13 {
             out.count("requests_followed_by_a_qos0_publish", 1);
         }
         let polled_flag = std::cell::Cell::new(false);
+        // ... and half of those issue one more request on the handle first (it is refused if the
+        // DISCONNECT was parked or sent, and then must leave nothing behind)
+        let other_op: Option<Step> = if reconnect_after && rng.chance(1, 2) {
+            Some(match rng.below(4) {
+                0 => Step::Subscribe(SubSpec { filters: vec![FilterSpec { filter: "c13/after".into(), max_qos: 1, no_local: false, rap: false, rh: 0 }], props: vec![], cancel_at: None }),
+                1 => Step::Unsubscribe(UnsubSpec { filters: vec!["c13/after".into()], props: vec![], cancel_at: None }),
+                2 => pubq(1 + rng.below(2) as u8, "c13/after", 0xAF, 3),
+                _ => Step::Drive { cancel_at: None },
+            })
+        } else {
+            None
+        };
+        let other_at = std::cell::Cell::new(None::<usize>);
         let skip_flag = std::cell::Cell::new(false);
         let run = |cancels: Vec<usize>| -> (RunLog, Shared, Vec<usize>) {
-            let mut d = CancelTwin { prefix: prefix.clone().into(), request: request.clone(), cancels: cancels.into(), stage: 0, drain_left: 0, reissued: false, request_ops: vec![], poll_before_reissue: false, polled_before_reissue: false, reconnect_after, skip_request: skip_flag.get(), tail: VecDeque::new(), then_qos0, qos0_done: false };
+            let mut d = CancelTwin { prefix: prefix.clone().into(), request: request.clone(), cancels: cancels.into(), stage: 0, drain_left: 0, reissued: false, request_ops: vec![], poll_before_reissue: false, polled_before_reissue: false, reconnect_after, skip_request: skip_flag.get(), other_op: other_op.clone(), other_op_at: None, tail: VecDeque::new(), then_qos0, qos0_done: false };
             let (log, world) = run_case(&cfg, seed, &mut d, prefix.len() + 400);
             polled_flag.set(d.polled_before_reissue);
+            other_at.set(d.other_op_at);
             (log, world, d.request_ops)
         };
         // 2. reference
@@ -453,6 +479,18 @@ impl Check for C13 {
             if reconnect_after {
                 // what the next connection carries does not depend on how far the DISCONNECT got
                 out.count("reconnects_after_a_cancelled_disconnect", 1);
+                // a request refused on the closing / closed handle leaves nothing behind
+                if let Some(oi) = other_at.get() {
+                    let o = &blog.ops[oi];
+                    if matches!(o.outcome, Outcome::Err(_)) {
+                        out.count("requests_refused_on_a_closing_handle", 1);
+                        let marker = b"c13/after";
+                        let hit = b_obs.packets.iter().enumerate().find(|(_, c)| c.iter().any(|p| p.windows(marker.len()).any(|w| w == marker)));
+                        if let Some((ci, _)) = hit {
+                            out.violations.push(viol("C13", "C13/disconnect/refused-request-left-trace", format!("disconnect cancelled at await {:?}, then {} returned {:?}: the refused request is nevertheless on the wire of connection {}", cancels, o.kind, o.outcome, ci)));
+                        }
+                    }
+                }
                 let (la, lb) = (a_obs.packets.last(), b_obs.packets.last());
                 let lc = c_obs.as_ref().and_then(|c| c.packets.last());
                 // a (disconnect completed) <= b <= c (no disconnect at all), as subsequences, and
